@@ -90,6 +90,7 @@ class Guard:
         self.panics = Region.empty(f_integer)   # values of f on which check_ref neither accepts nor rejects but overflows
         self.lossy_locals = {}   # local id -> conversion name: bound to a narrowed copy of a parameter
         self.lossy_tests = set()  # (path, conversion): a range test evaluated on a narrowed copy
+        self.bool_locals = {}    # local id -> Region: a verdict bound to a local (`let is_valid = match .. { .. }`)
         self.lin_locals = {}     # local id -> (a, b, others): the local holds a * f + b, the other parameters at their witnesses
         self.coef_params = set()  # other parameters whose witness value entered a guard through arithmetic
 
@@ -179,6 +180,8 @@ class Guard:
     # ---- paths
     def path_of(self, n):
         n = peel_refs(n)
+        while n["k"] == "Unary" and n["op"] == "*":
+            n = peel_refs(n["e"])
         if n["k"] == "Path" and "local" in n:
             if n["local"] in self.env:
                 return self.env[n["local"]]
@@ -321,6 +324,26 @@ class Guard:
                     op2 = op if a_ > 0 else flip[op]
                     return self.value_region(self.f, op2, b_ / a_, peel_refs(n["l"]))
                 raise Unclassified("comparison with unrecognised operands: %s" % Render(self.c).e(n))
+        if kk == "Path" and n.get("local") in self.bool_locals:
+            return self.bool_locals[n["local"]]
+        if kk == "Lit" and n.get("lk") == "bool":
+            return self.full if str(n.get("v")) == "true" else Region.empty(self.integer)
+        if kk == "Match" and n.get("src", "Normal") == "Normal":
+            # a verdict computed by a match: `match *stopping { NumClusters(n) => n != 0, Distance(x) => !(x.is_negative() ..) }`
+            path = self.path_of(n["scrut"])
+            out, rest = Region.empty(self.integer), self.full
+            for a in n["arms"]:
+                m = self.pat(a["pat"], path)
+                if m is None:
+                    out = out.union(self.cond(a["body"]))
+                    continue
+                if m.is_empty():
+                    continue
+                if a.get("guard"):
+                    m = m.intersect(self.cond(a["guard"]))
+                out = out.union(m.intersect(rest).intersect(self.cond(a["body"])))
+                rest = rest.minus(m)
+            return out
         if kk in ("Field", "Path") and (self.c.ty(n.get("t")) or "") == "bool":
             # a boolean state flag of the builder (not a hyperparameter range): evaluated as "not raised", recorded
             p = self.path_of(n)
@@ -542,6 +565,14 @@ class Guard:
                 i0 = strip(init)
                 if i0.get("k") == "Match" and i0.get("src") == "TryDesugar":
                     return self.try_helper(i0, inp)
+                if s["pat"].get("k") == "Bind" and (self.c.ty(i0.get("t")) or "").strip() == "bool" and i0.get("k") in ("Match", "Binary", "Unary", "If", "MethodCall"):
+                    try:
+                        reg = self.cond(i0)
+                    except Unclassified:
+                        reg = None
+                    if reg is not None:
+                        self.bool_locals[s["pat"]["local"]] = reg
+                        return inp
                 if i0.get("k") == "Binary" and i0["op"] in ("*", "+", "-", "/") and s["pat"].get("k") == "Bind" and (self.c.ty(i0.get("t")) or "").strip() not in INT_TYPES:
                     lin = self.lin_of(i0)
                     if lin is not None and (lin[2] or lin[0] != 0):
